@@ -16,6 +16,16 @@ CLAIMED = {
              '(real threads are exercised, not proved). set(report_type=...) variant not modelled (unused by DeepDiff).',
         technique='Lean 4 proof (invariant + refinement by induction over histories) + differential correspondence with heap walk'),
 }
+CLAIMED['C15'] = dict(
+    text='Lean 4 theorems over a stack-machine model of the restricted unpickler (all global-resolving opcodes GLOBAL, STACK_GLOBAL, INST, EXT*, and the callers '
+         'REDUCE/NEWOBJ/NEWOBJ_EX/OBJ/BUILD): the allow-list gate is an invariant of every state of every run of every program (any length/nesting/protocol), a '
+         'ForbiddenModule outcome names a global outside the list and nothing was resolved or called from it before; find_class admits exactly the joined string. '
+         'SAFE_TO_IMPORT and the source of find_class/__init__/persistent_load are regenerated from /repo each run; correspondence runs every (module, attribute) name '
+         'of the loaded modules and crafted programs for protocols 0-5 through the real unpickler and the compiled model.',
+    design='5/C15',
+    note='Trusted: Lean kernel; CPython routes global resolution through find_class except for the copyreg extension cache (modelled; finding F22); what allowed '
+         'callables do when called is outside the model; memo sharing of mutable containers not modelled.',
+    technique='Lean 4 proof (state invariant by induction over opcode steps) + differential correspondence against the real unpickler')
 NA = {}
 
 checks = []
